@@ -992,15 +992,227 @@ func (w *world) opVote() {
 	w.emit(fmt.Sprintf("vote %d %d", a.id, id), kind(res))
 }
 
+// opPeriods changes the deposit and voting period parameters; proposals already open keep their end times, so that
+// afterwards open proposals may end later (or much later) than one current period from now
+func (w *world) opPeriods() {
+	dp := hx.Pick(w.rng, []int64{100, 200, 200})
+	vp := hx.Pick(w.rng, []int64{150, 400, 400, 400, 15 * 24 * 3600, 40 * 24 * 3600})
+	w.setPeriods(dp, vp)
+}
+
+func (w *world) setPeriods(dp, vp int64) {
+	gp, err := w.s.App.GovKeeper.Keeper.Params.Get(w.s.Ctx)
+	must(err)
+	d1, d2 := time.Duration(dp)*time.Second, time.Duration(vp)*time.Second
+	gp.MaxDepositPeriod = &d1
+	gp.VotingPeriod = &d2
+	must(w.s.App.GovKeeper.Keeper.Params.Set(w.s.Ctx, gp))
+	w.out.Count(fmt.Sprintf("setperiods:vote=%d", vp))
+	w.emit(fmt.Sprintf("setperiods %d %d", dp, vp), "ok")
+}
+
 func (w *world) opBlock(dt int64) {
 	before := map[int]sdkmath.Int{}
 	for _, a := range w.actors {
 		before[a.id] = w.balFX(a.addr)
 	}
+	blockTime := w.now // time of the block whose end blocker runs now
 	w.endBlock(dt)
 	w.out.Count(fmt.Sprintf("block:dt=%d", dt))
 	w.emit(fmt.Sprintf("block %d", dt), "ok")
 	w.invariants("after block")
+	w.consistency("after block")
+	// maturation: the end blocker of a block at time T completes every unbonding / redelegation entry with completion <= T
+	// (an entry whose queue element names a delegator without that record is skipped silently and stays for ever)
+	sk := w.s.App.GetKey(stakingtypes.StoreKey)
+	cdc := w.s.App.AppCodec()
+	for _, kv := range hx.RawPrefix(w.s.Ctx, sk, stakingtypes.UnbondingDelegationKey) {
+		ubd := stakingtypes.MustUnmarshalUBD(cdc, kv[1])
+		for _, e := range ubd.Entries {
+			if w.secs(e.CompletionTime) <= blockTime {
+				w.out.Violate("stuck: an unbonding entry past its completion time is still in the store after the end blocker (its funds are never paid out)")
+			}
+		}
+	}
+	for _, kv := range hx.RawPrefix(w.s.Ctx, sk, stakingtypes.RedelegationKey) {
+		red := stakingtypes.MustUnmarshalRED(cdc, kv[1])
+		for _, e := range red.Entries {
+			if w.secs(e.CompletionTime) <= blockTime {
+				w.out.Violate("stuck: a redelegation entry past its completion time is still in the store after the end blocker")
+			}
+		}
+	}
+}
+
+// consistency of the staking store's records with their indexes, queue elements and unbonding ids (what the keepers
+// maintain and a migration has to carry over): evaluated on the raw store for every delegator
+func (w *world) consistency(when string) {
+	ctx := w.s.Ctx
+	sk := w.s.App.GetKey(stakingtypes.StoreKey)
+	st := ctx.KVStore(sk)
+	cdc := w.s.App.AppCodec()
+	bad := func(what string) { w.out.Violate("consistency " + when + ": " + what) }
+	type ent struct {
+		key  []byte
+		t    int64
+		id   uint64
+		kind string
+	}
+	var entries []ent
+	// delegations <-> 0x71
+	for _, kv := range hx.RawPrefix(ctx, sk, stakingtypes.DelegationKey) {
+		d, rest := readLP(kv[0][1:])
+		v, _ := readLP(rest)
+		if !st.Has(stakingtypes.GetDelegationsByValKey(v, d)) {
+			bad("a delegation record has no delegations-by-validator index entry (0x71)")
+		}
+	}
+	for _, kv := range hx.RawPrefix(ctx, sk, stakingtypes.DelegationByValIndexKey) {
+		v, d := readLP(kv[0][1:])
+		if !st.Has(stakingtypes.GetDelegationKey(d, v)) {
+			bad("a delegations-by-validator index entry (0x71) has no delegation record")
+		}
+	}
+	// unbonding delegations <-> 0x33
+	for _, kv := range hx.RawPrefix(ctx, sk, stakingtypes.UnbondingDelegationKey) {
+		d, rest := readLP(kv[0][1:])
+		v, _ := readLP(rest)
+		if !st.Has(stakingtypes.GetUBDByValIndexKey(d, v)) {
+			bad("an unbonding delegation has no by-validator index entry (0x33)")
+		}
+		ubd := stakingtypes.MustUnmarshalUBD(cdc, kv[1])
+		for _, e := range ubd.Entries {
+			entries = append(entries, ent{kv[0], w.secs(e.CompletionTime), e.UnbondingId, "unbonding"})
+			var ps stakingtypes.DVPairs
+			found := false
+			if bz := st.Get(stakingtypes.GetUnbondingDelegationTimeKey(e.CompletionTime)); bz != nil {
+				cdc.MustUnmarshal(bz, &ps)
+				for _, p := range ps.Pairs {
+					if p.DelegatorAddress == ubd.DelegatorAddress && p.ValidatorAddress == ubd.ValidatorAddress {
+						found = true
+					}
+				}
+			}
+			if !found {
+				bad("an unbonding entry is not announced in the queue slice (0x41) of its completion time under its delegator")
+			}
+		}
+	}
+	for _, kv := range hx.RawPrefix(ctx, sk, stakingtypes.UnbondingDelegationByValIndexKey) {
+		v, rest := readLP(kv[0][1:])
+		d, _ := readLP(rest)
+		if !st.Has(stakingtypes.GetUBDKey(d, v)) {
+			bad("an unbonding-delegation by-validator index entry (0x33) has no record")
+		}
+	}
+	// redelegations <-> 0x35, 0x36
+	for _, kv := range hx.RawPrefix(ctx, sk, stakingtypes.RedelegationKey) {
+		d, rest := readLP(kv[0][1:])
+		a, rest := readLP(rest)
+		b, _ := readLP(rest)
+		if !st.Has(stakingtypes.GetREDByValSrcIndexKey(d, a, b)) {
+			bad("a redelegation has no by-source-validator index entry (0x35)")
+		}
+		if !st.Has(stakingtypes.GetREDByValDstIndexKey(d, a, b)) {
+			bad("a redelegation has no by-destination-validator index entry (0x36)")
+		}
+		red := stakingtypes.MustUnmarshalRED(cdc, kv[1])
+		for _, e := range red.Entries {
+			entries = append(entries, ent{kv[0], w.secs(e.CompletionTime), e.UnbondingId, "redelegation"})
+			var ts stakingtypes.DVVTriplets
+			found := false
+			if bz := st.Get(stakingtypes.GetRedelegationTimeKey(e.CompletionTime)); bz != nil {
+				cdc.MustUnmarshal(bz, &ts)
+				for _, p := range ts.Triplets {
+					if p.DelegatorAddress == red.DelegatorAddress && p.ValidatorSrcAddress == red.ValidatorSrcAddress && p.ValidatorDstAddress == red.ValidatorDstAddress {
+						found = true
+					}
+				}
+			}
+			if !found {
+				bad("a redelegation entry is not announced in the queue slice (0x42) of its completion time under its delegator")
+			}
+		}
+	}
+	for _, x := range []struct {
+		name string
+		pfx  []byte
+		dst  bool
+	}{{"0x35", stakingtypes.RedelegationByValSrcIndexKey, false}, {"0x36", stakingtypes.RedelegationByValDstIndexKey, true}} {
+		for _, kv := range hx.RawPrefix(ctx, sk, x.pfx) {
+			v1, rest := readLP(kv[0][1:])
+			d, rest := readLP(rest)
+			v2, _ := readLP(rest)
+			src, dst := v1, v2
+			if x.dst {
+				src, dst = v2, v1
+			}
+			if !st.Has(stakingtypes.GetREDKey(d, src, dst)) {
+				bad("a redelegation by-validator index entry (" + x.name + ") has no record")
+			}
+		}
+	}
+	// unbonding ids (0x38) <-> entries
+	ids := map[uint64][]byte{}
+	for _, kv := range hx.RawPrefix(ctx, sk, stakingtypes.UnbondingIndexKey) {
+		ids[binary.BigEndian.Uint64(kv[0][1:])] = kv[1]
+	}
+	seen := map[uint64]bool{}
+	for _, e := range entries {
+		seen[e.id] = true
+		if v, ok := ids[e.id]; !ok || !bytes.Equal(v, e.key) {
+			bad("the unbonding-id index (0x38) of an " + e.kind + " entry does not point at the entry's record")
+		}
+	}
+	for id, v := range ids {
+		if !seen[id] && len(v) > 0 && (v[0] == stakingtypes.UnbondingDelegationKey[0] || v[0] == stakingtypes.RedelegationKey[0]) {
+			bad("an unbonding-id index entry (0x38) points at a record without an entry of that id")
+		}
+	}
+	// queue elements -> entries
+	for _, kv := range hx.RawPrefix(ctx, sk, stakingtypes.UnbondingQueueKey) {
+		ts, err := sdk.ParseTimeBytes(kv[0][1:])
+		must(err)
+		var ps stakingtypes.DVPairs
+		cdc.MustUnmarshal(kv[1], &ps)
+		for _, p := range ps.Pairs {
+			d, _ := sdk.AccAddressFromBech32(p.DelegatorAddress)
+			v, _ := sdk.ValAddressFromBech32(p.ValidatorAddress)
+			ok := false
+			if u, err := w.s.App.StakingKeeper.GetUnbondingDelegation(ctx, d, v); err == nil {
+				for _, e := range u.Entries {
+					if e.CompletionTime.Equal(ts) {
+						ok = true
+					}
+				}
+			}
+			if !ok {
+				bad("an unbonding queue element (0x41) names a delegator without an entry completing at that time")
+			}
+		}
+	}
+	for _, kv := range hx.RawPrefix(ctx, sk, stakingtypes.RedelegationQueueKey) {
+		ts, err := sdk.ParseTimeBytes(kv[0][1:])
+		must(err)
+		var ps stakingtypes.DVVTriplets
+		cdc.MustUnmarshal(kv[1], &ps)
+		for _, p := range ps.Triplets {
+			d, _ := sdk.AccAddressFromBech32(p.DelegatorAddress)
+			a, _ := sdk.ValAddressFromBech32(p.ValidatorSrcAddress)
+			b, _ := sdk.ValAddressFromBech32(p.ValidatorDstAddress)
+			ok := false
+			if r, err := w.s.App.StakingKeeper.GetRedelegation(ctx, d, a, b); err == nil {
+				for _, e := range r.Entries {
+					if e.CompletionTime.Equal(ts) {
+						ok = true
+					}
+				}
+			}
+			if !ok {
+				bad("a redelegation queue element (0x42) names a delegator without an entry completing at that time")
+			}
+		}
+	}
 }
 
 // ---------------------------------------------------------------------------------------------------------
@@ -1266,7 +1478,7 @@ func (w *world) opMigrate() {
 	w.migrate(fromID, fromAddr, to, signer, order, sig, mode)
 }
 
-func (w *world) migrate(fromID int, fromAddr sdk.AccAddress, to *actor, signer int, order, sig, mode string) {
+func (w *world) migrate(fromID int, fromAddr sdk.AccAddress, to *actor, signer int, order, sig, mode string) string {
 	roles := w.openInvolvement(fromAddr, to.addr)
 	pf, pt := w.portfolio(fromAddr), w.portfolio(to.addr)
 	totals := w.totals()
@@ -1318,7 +1530,7 @@ func (w *world) migrate(fromID int, fromAddr sdk.AccAddress, to *actor, signer i
 		if w.recordSlots(fromAddr, to.addr) != recsBefore {
 			w.out.Violate("refused: a refused migration wrote a migration record or direction flag")
 		}
-		return
+		return res
 	}
 	if role != "" {
 		w.out.Violate("reuse: migration accepted although an address took part in an earlier migration (" + role + ")")
@@ -1439,6 +1651,8 @@ func (w *world) migrate(fromID int, fromAddr sdk.AccAddress, to *actor, signer i
 		}
 	}
 	w.invariants("after migration")
+	w.consistency("after migration")
+	return res
 }
 
 // roleHistory names how the addresses of a requested migration took part in earlier accepted ones ("" = not at all)
@@ -1627,8 +1841,10 @@ func (w *world) randomOp() {
 		w.opDeposit()
 	case r < 76:
 		w.opVote()
-	case r < 88:
+	case r < 87:
 		w.opBlock(hx.Pick(w.rng, []int64{1, 1, 7, 50, 100, 100, 200, 299, 300}))
+	case r < 88:
+		w.opPeriods()
 	case r < 96:
 		w.opMigrate()
 	default:
@@ -1649,8 +1865,26 @@ func TestC14(t *testing.T) {
 		rng := rand.New(rand.NewSource(seed*1000003 + int64(i)))
 		w := newWorld(t, out, rng)
 		w.reset()
-		if i == 0 {
+		switch {
+		case i == 0:
 			w.scripted()
+			continue
+		case i >= 1 && i <= 4: // the governance matrix: who x role x stage of the proposal's life
+			cases := govMatrix()
+			rng.Shuffle(len(cases), func(a, b int) { cases[a], cases[b] = cases[b], cases[a] })
+			for k := 0; k < 5; k++ {
+				c := cases[((i-1)*5+k)%len(cases)]
+				w.govScenario(c, w.byID[1+k], w.byID[11+k], w.byID[6])
+			}
+			w.opBlock(400)
+			w.opBlock(400)
+			w.opBlock(1)
+			continue
+		case i == 5:
+			w.portfolioScenario()
+			continue
+		case i == 6:
+			w.chainScenario()
 			continue
 		}
 		for j := 0; j < nOps; j++ {
@@ -1662,6 +1896,181 @@ func TestC14(t *testing.T) {
 		w.opBlock(1)
 	}
 	_ = big.NewInt
+}
+
+type govCase struct{ who, role, phase string }
+
+// every way an address can be involved in a proposal, at every stage of the proposal's life: during the deposit / voting
+// period, at the very end time (the proposal is still queued: its end blocker has not run), and after it closed
+func govMatrix() []govCase {
+	var cs []govCase
+	for _, who := range []string{"source", "target"} {
+		cs = append(cs,
+			govCase{who, "proposer", "deposit"}, govCase{who, "depositor", "deposit"},
+			govCase{who, "proposer", "voting"}, govCase{who, "depositor", "voting"}, govCase{who, "voter", "voting"},
+			govCase{who, "proposer", "deposit-end"}, govCase{who, "voter", "voting-end"},
+			govCase{who, "depositor", "closed-unfunded"}, govCase{who, "voter", "closed-voted"})
+	}
+	return cs
+}
+
+func (w *world) textProposal(a *actor, dep sdkmath.Int) string {
+	content, _ := govv1beta1.ContentFromProposalType("title", "description", "Text")
+	legacy, err := govv1.NewLegacyContent(content, authtypes.NewModuleAddress(govtypes.ModuleName).String())
+	must(err)
+	anys, err := sdktx.SetMsgs([]sdk.Msg{legacy})
+	must(err)
+	var init sdk.Coins
+	if dep.IsPositive() {
+		init = sdk.NewCoins(w.coin(dep))
+	}
+	res := w.exec(&govv1.MsgSubmitProposal{Messages: anys, InitialDeposit: init, Proposer: a.addr.String(), Title: "title", Summary: "description"})
+	w.emit(fmt.Sprintf("submit %d %s", a.id, dep), kind(res))
+	return res
+}
+
+func (w *world) doDeposit(a *actor, id uint64, n sdkmath.Int) {
+	res := w.exec(&govv1.MsgDeposit{ProposalId: id, Depositor: a.addr.String(), Amount: sdk.NewCoins(w.coin(n))})
+	w.emit(fmt.Sprintf("deposit %d %d %s", a.id, id, n), kind(res))
+}
+
+func (w *world) doVote(a *actor, id uint64) {
+	res := w.exec(&govv1.MsgVote{ProposalId: id, Voter: a.addr.String(), Option: govv1.OptionYes})
+	w.emit(fmt.Sprintf("vote %d %d", a.id, id), kind(res))
+}
+
+// govScenario: exactly one involvement of the source or the target in one proposal (a third account supplies the rest),
+// the proposal brought to the requested stage, then a correctly signed migration of an otherwise unobjectionable pair
+func (w *world) govScenario(c govCase, src, tgt, helper *actor) {
+	x := src
+	if c.who == "target" {
+		x = tgt
+	}
+	id, err := w.s.App.GovKeeper.Keeper.ProposalID.Peek(w.s.Ctx)
+	must(err)
+	voting := strings.HasPrefix(c.phase, "voting") || c.phase == "closed-voted"
+	zero := sdkmath.ZeroInt()
+	switch c.role {
+	case "proposer":
+		w.textProposal(x, zero) // proposer without any deposit of its own
+		if voting {
+			w.doDeposit(helper, id, w.minDep)
+		}
+	case "depositor":
+		switch {
+		case !voting:
+			w.textProposal(helper, zero)
+			w.doDeposit(x, id, w.amt(1+w.rng.Int63n(400)))
+		case w.rng.Intn(2) == 0:
+			w.textProposal(helper, zero)
+			w.doDeposit(x, id, w.minDep) // the deposit that starts the voting period
+		default:
+			w.textProposal(helper, w.minDep)
+			w.doDeposit(x, id, w.amt(1+w.rng.Int63n(400))) // a further deposit during the voting period
+		}
+	case "voter":
+		w.textProposal(helper, w.minDep)
+		w.doVote(x, id)
+	}
+	switch c.phase {
+	case "deposit", "voting":
+		w.opBlock(hx.Pick(w.rng, []int64{1, 7, 50, 150}))
+	case "deposit-end":
+		w.opBlock(depSecs) // now == deposit end time: still queued
+	case "voting-end":
+		w.opBlock(voteSecs)
+	case "closed-unfunded":
+		w.opBlock(depSecs)
+		w.opBlock(1)
+	case "closed-voted":
+		w.opBlock(voteSecs)
+		w.opBlock(1)
+	}
+	res := w.migrate(src.id, src.addr, tgt, tgt.id, "ft", w.sign(tgt.eth, src.addr, tgt.addr), "ok")
+	w.out.Count("gov-scenario:" + c.who + "-" + c.role + "-" + c.phase + "=" + res)
+}
+
+// portfolioScenario: a source whose records share completion times in every way — two unbonding delegations (different
+// validators) and two redelegations started in one block, another delegator in the same slices, second entries of the
+// same records at a later time, pending rewards, a second denomination — migrated, then everything matures
+func (w *world) portfolioScenario() {
+	u1, u2, e1 := w.byID[1], w.byID[2], w.byID[11]
+	del := func(a *actor, vi int, units int64) {
+		n := w.amt(units)
+		res, rw := w.withReward(a, func() sdkmath.Int { return n }, func() string {
+			return w.exec(&stakingtypes.MsgDelegate{DelegatorAddress: a.addr.String(), ValidatorAddress: w.valStr(vi), Amount: w.coin(n)})
+		})
+		w.emit(fmt.Sprintf("delegate %d %d %s %s", a.id, 100+vi, n, rw), kind(res))
+	}
+	und := func(a *actor, vi int, units int64) {
+		n := w.amt(units)
+		res, rw := w.withReward(a, func() sdkmath.Int { return sdkmath.ZeroInt() }, func() string {
+			return w.exec(&stakingtypes.MsgUndelegate{DelegatorAddress: a.addr.String(), ValidatorAddress: w.valStr(vi), Amount: w.coin(n)})
+		})
+		w.emit(fmt.Sprintf("undelegate %d %d %s %s", a.id, 100+vi, n, rw), kind(res))
+	}
+	red := func(a *actor, vi, vj int, units int64) {
+		n := w.amt(units)
+		res, rw := w.withReward(a, func() sdkmath.Int { return sdkmath.ZeroInt() }, func() string {
+			return w.exec(&stakingtypes.MsgBeginRedelegate{DelegatorAddress: a.addr.String(), ValidatorSrcAddress: w.valStr(vi), ValidatorDstAddress: w.valStr(vj), Amount: w.coin(n)})
+		})
+		w.emit(fmt.Sprintf("redelegate %d %d %d %s %s 0", a.id, 100+vi, 100+vj, n, rw), kind(res))
+	}
+	del(u1, 0, 300)
+	del(u1, 1, 200)
+	del(u1, 2, 100)
+	del(u2, 0, 100)
+	del(u2, 1, 100)
+	w.opBlock(5)
+	und(u1, 0, 10) // one block: two unbonding delegations of the source, one of another delegator, two redelegations
+	und(u2, 0, 5)
+	und(u1, 1, 10)
+	red(u1, 0, 2, 20)
+	red(u2, 1, 2, 7)
+	red(u1, 1, 2, 15)
+	w.opBlock(int64(20 + w.rng.Intn(60)))
+	und(u1, 0, 7) // second entries of the same records, at a later time
+	und(u1, 2, 3)
+	red(u1, 0, 2, 5)
+	und(u2, 1, 4)
+	w.opBlock(int64(1 + w.rng.Intn(30)))
+	und(u1, 1, 2) // and a third completion time
+	w.opBlock(3)
+	res := w.migrate(u1.id, u1.addr, e1, e1.id, "ft", w.sign(e1.eth, u1.addr, e1.addr), "ok")
+	w.out.Count("portfolio-scenario=" + res)
+	// the target carries on where the source stopped
+	und(e1, 0, 11)
+	und(e1, 2, 30)
+	w.opBlock(100)
+	w.opBlock(100)
+	w.opBlock(100) // the first completion times pass here
+	w.opBlock(50)
+	und(e1, 1, 5)
+	w.opBlock(100)
+	w.opBlock(300)
+	w.opBlock(1)
+}
+
+// chainScenario: every way an address of an accepted migration can come back in another role
+func (w *world) chainScenario() {
+	mig := func(from, to *actor) {
+		w.migrate(from.id, from.addr, to, to.id, "ft", w.sign(to.eth, from.addr, to.addr), "ok")
+	}
+	u1, u2, u3 := w.byID[1], w.byID[2], w.byID[3]
+	e1, e2, d4, d5, d6 := w.byID[11], w.byID[12], w.byID[14], w.byID[15], w.byID[16]
+	mig(u1, d4) // user -> dual
+	mig(d5, d6) // dual -> dual
+	w.opBlock(1)
+	mig(u2, d5) // old source as target
+	mig(d4, e1) // old target as source
+	mig(d6, d5) // the pair reversed
+	w.opBlock(7)
+	mig(u1, e2) // old source again
+	mig(u3, d4) // old target again
+	mig(u1, d4) // the same pair again
+	mig(d5, e2) // old source (dual) again as source
+	mig(u3, e1) // untouched pair: accepted
+	w.opBlock(1)
 }
 
 // scripted: the directed history of DESIGN §6-F, run first in every run: a source that is proposer / depositor / voter of
